@@ -237,13 +237,24 @@ class Component( ComponentLevel7 ):
     # WE NEED TO ADD CONNECTIONS AT PARENT INSTEAD OF TOP
     parent.add_connections( *connection_pairs )
 
+    def by_name( name ):
+      # The object of that name in the new design. A bitstruct field can have
+      # the name of a method of signal objects ( s.a.out.inverse )
+      x = eval( name, { "s": s } )
+      if not isinstance( x, NamedObject ) and "." in name:
+        base, field = name.rsplit( ".", 1 )
+        base = eval( base, { "s": s } )
+        if isinstance( base, Signal ):
+          x = base.__getattr__( field )
+      return x
+
     # Now we put back the provided upblk metadata to parent and top
     for blk, obj_name in provided_upblk_reads:
       # the block may belong to an ancestor of parent
-      top._dsl.all_upblk_hostobj[blk]._dsl.upblk_reads[blk].add( eval(obj_name) )
+      top._dsl.all_upblk_hostobj[blk]._dsl.upblk_reads[blk].add( by_name(obj_name) )
 
     for blk, obj_name in provided_upblk_writes:
-      written = eval(obj_name)
+      written = by_name(obj_name)
       parent._dsl.upblk_writes[blk].add( written )
       # An update_ff block of the parent registers a value into this port
       if blk in top._dsl.all_update_ff:
@@ -251,7 +262,7 @@ class Component( ComponentLevel7 ):
 
     for blk, obj_name in provided_upblk_calls:
       # the block may belong to an ancestor of parent
-      top._dsl.all_upblk_hostobj[blk]._dsl.upblk_calls[blk].add( eval(obj_name) )
+      top._dsl.all_upblk_hostobj[blk]._dsl.upblk_calls[blk].add( by_name(obj_name) )
 
     # the function may belong to an ancestor of parent
     def func_host( func ):
@@ -261,13 +272,13 @@ class Component( ComponentLevel7 ):
       return host
 
     for func, obj_name in provided_func_reads:
-      func_host( func )._dsl.func_reads[func].add( eval(obj_name) )
+      func_host( func )._dsl.func_reads[func].add( by_name(obj_name) )
 
     for func, obj_name in provided_func_writes:
-      parent._dsl.func_writes[func].add( eval(obj_name) )
+      parent._dsl.func_writes[func].add( by_name(obj_name) )
 
     for func, obj_name in provided_func_calls:
-      func_host( func )._dsl.func_calls[func].add( eval(obj_name) )
+      func_host( func )._dsl.func_calls[func].add( by_name(obj_name) )
 
     # Put back the explicit constraints that ancestors declared on objects
     # of the replaced component
